@@ -129,7 +129,10 @@ bool cjet_is_text_valid(struct cjet_utf8_checker *c, const char *text, size_t le
 		if (ret == false) return false;
 	}
 	if (is_complete) {
-		if (c->start_byte != UC_FINISH) return false;
+		if (c->start_byte != UC_FINISH) {
+			cjet_init_checker(c);
+			return false;
+		}
 	}
 	return ret;
 }
